@@ -137,11 +137,11 @@ PROPS["C12"] = {
 PROPS["C13"] = {
     "title": "One replica set per template, faithful to it, never collected while in use",
     "level": "exploration",
-    "level_text": "Stateful property test over template-edit words on a small alphabet (A->B->A, A->B->C, edits during a canary) with all reconcilers interleaved: no replica set is created while one with the same template hash exists; a created set's template, hash annotation and templateGeneration equal spec.template and its MD5; every created pod carries its creator's hash; a replica-set Delete never hits the set that is active or matches spec.template after the reconcile, only sets whose status as read is all zero, and a failed canary not before two minutes; the PodTemplate equals spec.template and its hash after its reconcile. A scripted revert family (template X, Y, X again while X's set is held by a finalizer; one replica-set creation optionally refused or stored-but-answered-with-an-error) checks that a terminating or just-created set is re-used and never doubled.",
+    "level_text": "Stateful property test over template-edit words on a small alphabet (A->B->A, A->B->C, edits during a canary) with all reconcilers interleaved: no replica set is created while one with the same template hash exists; a created set's template, hash annotation and templateGeneration equal spec.template and its MD5; every created pod carries its creator's hash; a replica-set Delete never hits the set that is active or matches spec.template after the reconcile, only sets whose status as read is all zero, and a failed canary not before two minutes; the PodTemplate equals spec.template and its hash after its reconcile. A scripted revert family (template X, Y, X again while X's set is held by a finalizer; one replica-set creation optionally refused or stored-but-answered-with-an-error) checks that a terminating or just-created set is re-used and never doubled. A third family changes the template and lets one of the following EDS status writes fail (refused with a generic error or Conflict, or stored and answered with an error): the set the stored status names as active is never collected.",
     "level_note": SM_NOTE,
     "technique": "stateful property-based testing (rapid) with per-step invariants; template hash recomputed independently (MD5 of the JSON rendering)",
-    "quick": {"jobs": [rapid_job("sm", "^TestC13SM$", 750, shards=4), rapid_job("revert", "^TestC13Revert$", 150, shards=2)]},
-    "thorough": {"jobs": [rapid_job("sm", "^TestC13SM$", 4000, shards=14, timeout="50m"), rapid_job("revert", "^TestC13Revert$", 2000, shards=4, timeout="50m")]},
+    "quick": {"jobs": [rapid_job("sm", "^TestC13SM$", 750, shards=4), rapid_job("revert", "^TestC13Revert$", 150, shards=2), rapid_job("status-write-faults", "^TestC13StatusWriteFaults$", 600)]},
+    "thorough": {"jobs": [rapid_job("sm", "^TestC13SM$", 4000, shards=14, timeout="50m"), rapid_job("revert", "^TestC13Revert$", 2000, shards=4, timeout="50m"), rapid_job("status-write-faults", "^TestC13StatusWriteFaults$", 8000, shards=2)]},
 }
 
 PROPS["C14"] = {
@@ -193,7 +193,7 @@ PROPS["C10"] = {
 PROPS["C18"] = {
     "title": "At most one valid ExtendedDaemonsetSetting applies to a node",
     "level": "exploration",
-    "level_text": "Generated populations of 1-4 settings in one or two namespaces (creation times equal or different, selectors by labels or expressions including unusable ones (In without values, an unknown operator, an illegal label value), reference present / empty / absent / naming another EDS) and 0-4 labelled nodes; every setting is reconciled (twice) by the real setting reconciler in a generated order - in TestC18AllOrders in every permutation (exhaustive in the order dimension) - and the statuses are judged by a reference verdict: malformed => error, two settings matching a common node never both valid, invalid overlapping => conflict error, well-formed and overlapping no other => valid. Then the real replica-set sync creates pods and each pod's setting label must name a valid setting of that EDS whose selector matches the pod's node.",
+    "level_text": "Generated populations of 1-4 settings in one or two namespaces (creation times equal or different, selectors by labels or expressions including unusable ones (In without values, an unknown operator, an illegal label value), reference present / empty / absent / naming another EDS) and 0-4 labelled nodes; every setting is reconciled (twice) by the real setting reconciler in a generated order - in TestC18AllOrders in every permutation (exhaustive in the order dimension) - and the statuses are judged by a reference verdict: malformed => error, two settings matching a common node never both valid, invalid overlapping => conflict error, well-formed and overlapping no other => valid. Then the real replica-set sync creates pods and each pod's setting label must name a valid setting of that EDS whose selector matches the pod's node. A late-arrival phase adds a newer setting after the verdicts stand and reconciles every setting once more the way a work queue does (again only after an error or a write to the setting itself) with one failing read of the setting controller: the verdicts must still be the reference ones.",
     "level_note": "A setting without reference still counts as an overlapping neighbour (statement is silent); only the pairwise 'never both valid' and the explicit positive case are demanded.",
     "technique": "property-based testing (rapid) against a reference verdict; exhaustive enumeration of reconcile orders per generated population",
     "quick": {"jobs": [rapid_job("settings", "^TestC18Settings$", 2000, shards=2), rapid_job("all-orders", "^TestC18AllOrders$", 250, shards=2)]},
@@ -213,11 +213,11 @@ PROPS["C07"] = {
 PROPS["C11"] = {
     "title": "Any failed API call or controller crash is recovered without breaking safety",
     "level": "fault_enumeration",
-    "level_text": "Corpus of ten scenarios (first deployment, rolling update, canary start, promotion by validation and by time, failure and rollback by command / restart storm / timeout, node removal and taint, settings change, migration from a DaemonSet, canary paused / unpaused / validated) played by milestone-driven scripts (canary scenarios with an uneven restart history of the daemon pods, so that the node choice depends on what the selection reads). The failure-free run records the K API calls of the controllers (reads included); a faulted re-run injects, at call k, one of {call rejected with a generic error, call rejected with the API status error typical for the verb (AlreadyExists, Conflict, TooManyRequests, ServerTimeout), call applied but answer lost, process stop before the call, process stop after the call} (fresh controller instances after a stop), then failure-free fair rounds until quiet. Oracle: the safety monitors (eligible/once-per-node creation, availability budget, canary confinement and list growth, promotion rule, ownership, no panic - the five safety properties the statement lists) after every step, and the final canonical state (pods per node with template hash / readiness / labels / resources, EDS status, replica sets) equal to the failure-free run's modulo names and timestamps. Quick: sampled positions, kinds and pairs over generated configurations plus the exhaustive single-fault sweep of four scenarios; thorough: every single position x kind for all ten scenarios (exhaustive for singles of the fixed configuration) and more sampled pairs.",
+    "level_text": "An event-driven job (TestC11Queue: watch events, requeue requests and error back-off only, on the virtual clock) lets one write of the EDS or replica-set controller fail after the first roll-out and demands the failure-free fixpoint within a bound of virtual time - a failure that is swallowed (no error, no requeue, nothing written) shows there. Corpus of ten scenarios (first deployment, rolling update, canary start, promotion by validation and by time, failure and rollback by command / restart storm / timeout, node removal and taint, settings change, migration from a DaemonSet, canary paused / unpaused / validated) played by milestone-driven scripts (canary scenarios with an uneven restart history of the daemon pods, so that the node choice depends on what the selection reads). The failure-free run records the K API calls of the controllers (reads included); a faulted re-run injects, at call k, one of {call rejected with a generic error, call rejected with the API status error typical for the verb (AlreadyExists, Conflict, TooManyRequests, ServerTimeout), call applied but answer lost, process stop before the call, process stop after the call} (fresh controller instances after a stop), then failure-free fair rounds until quiet. Oracle: the safety monitors (eligible/once-per-node creation, availability budget, canary confinement and list growth, promotion rule, ownership, no panic - the five safety properties the statement lists) after every step, and the final canonical state (pods per node with template hash / readiness / labels / resources, EDS status, replica sets) equal to the failure-free run's modulo names and timestamps. Quick: sampled positions, kinds and pairs over generated configurations plus the exhaustive single-fault sweep of four scenarios; thorough: every single position x kind for all ten scenarios (exhaustive for singles of the fixed configuration) and more sampled pairs.",
     "level_note": "Exhaustive for single faults of one fixed configuration per scenario; other configurations and pairs are sampled. A stopped process is modelled as every later call of that reconcile failing, then fresh reconciler instances.",
     "technique": "fault enumeration over the recorded API-call sequence (every index x fault kind) + property-based sampling (rapid) of configurations and fault pairs; differential oracle against the failure-free run",
-    "quick": {"jobs": [rapid_job("sampled", "^TestC11Sampled$", 40, shards=4), rapid_job("singles", "^TestC11Exhaustive$", 1, shards=6, env={"VERIF_SCENARIOS": "rolling-update,failure-rollback,canary-start,pause-unpause-validate"})]},
-    "thorough": {"jobs": [rapid_job("sampled", "^TestC11Sampled$", 150, shards=6, timeout="50m"), rapid_job("singles", "^TestC11Exhaustive$", 1, shards=10, timeout="50m")]},
+    "quick": {"jobs": [rapid_job("sampled", "^TestC11Sampled$", 40, shards=4), rapid_job("singles", "^TestC11Exhaustive$", 1, shards=6, env={"VERIF_SCENARIOS": "rolling-update,failure-rollback,canary-start,pause-unpause-validate"}), rapid_job("queue", "^TestC11Queue$", 240, shards=3)]},
+    "thorough": {"jobs": [rapid_job("sampled", "^TestC11Sampled$", 150, shards=6, timeout="50m"), rapid_job("singles", "^TestC11Exhaustive$", 1, shards=10, timeout="50m"), rapid_job("queue", "^TestC11Queue$", 3000, shards=8, timeout="50m")]},
 }
 
 PROPS["C17"] = {
@@ -235,11 +235,11 @@ PROPS["C17"] = {
 PROPS["C19"] = {
     "title": "kubectl-eds commands change only what they document; the controller obeys them",
     "level": "exploration",
-    "level_text": "Stateful property test whose user actions are the real command bodies (run through build-tagged shims with an injected client): a generated prefix history reaches no canary / canary running / auto-paused / user-paused / failed / mid rolling update, then up to three commands, each followed by fair rounds. Oracle: the store diff before/after a command touches only the documented annotation keys (for `fail`: only the canary replica set's Canary-Failed condition); a command whose precondition is false, or that returns an error, writes nothing; annotation values are the documented ones; within six rounds pause => Canary Paused, unpause => Canary, validate => exactly the replica set that was status.canary.replicaSet when the command ran is active (a later template is not promoted by the old annotation: promotion-rule monitor), fail => rollback. A scenario family covers `canary fail` on a re-used replica set, another runs the real `canary fail` body between the read and the status write of a sync of the canary set, and every sequence of one to four `canary pause` / `canary unpause` command bodies (x closing validate / fail / none x validation mode; 180 configurations) is enumerated on a running canary with the documented annotations and the controller's reading demanded after each command.",
+    "level_text": "Stateful property test whose user actions are the real command bodies (run through build-tagged shims with an injected client): a generated prefix history reaches no canary / canary running / auto-paused / user-paused / failed / mid rolling update, then up to three commands, each followed by fair rounds. Oracle: the store diff before/after a command touches only the documented annotation keys (for `fail`: only the canary replica set's Canary-Failed condition); a command whose precondition is false, or that returns an error, writes nothing; annotation values are the documented ones; within six rounds pause => Canary Paused, unpause => Canary, validate => exactly the replica set that was status.canary.replicaSet when the command ran is active (a later template is not promoted by the old annotation: promotion-rule monitor), fail => rollback. A scenario family covers `canary fail` on a re-used replica set, another runs the real `canary fail` body between the read and the status write of a sync of the canary set, and every sequence of one to four `canary pause` / `canary unpause` command bodies (x closing validate / fail / none x validation mode; 180 configurations) is enumerated on a running canary with the documented annotations and the controller's reading demanded after each command. An event-driven job delivers the commands' writes to the controllers only as watch events through the repository's own wiring (a real controller-runtime manager over fake informers runs the four SetupWithManager functions; scheduling by the virtual-time work queue) and demands the reading within 3 x reconcileFrequency + 2s.",
     "level_note": "Expectations about the controller's interpretation are only demanded when the command acted on the current canary (status.canary matching spec.template) and, for fail, when the canary is not explicitly validated.",
     "technique": "stateful property-based testing (rapid) with real command bodies as actions, store-diff oracle and bounded-rounds interpretation oracle",
-    "quick": {"jobs": [rapid_job("commands", "^TestC19Commands$", 300, shards=4), rapid_job("reused-set", "^TestC19FailReusedSet$", 60), rapid_job("fail-mid-sync", "^TestC19FailMidSync$", 60, requires="verif_plugin"), rapid_job("sequences", "^TestC19CanarySequences$", 1, shards=4, requires="verif_plugin")]},
-    "thorough": {"jobs": [rapid_job("commands", "^TestC19Commands$", 2500, shards=15, timeout="50m"), rapid_job("reused-set", "^TestC19FailReusedSet$", 400), rapid_job("fail-mid-sync", "^TestC19FailMidSync$", 500, requires="verif_plugin"), rapid_job("sequences", "^TestC19CanarySequences$", 1, shards=4, requires="verif_plugin")]},
+    "quick": {"jobs": [rapid_job("commands", "^TestC19Commands$", 300, shards=4), rapid_job("reused-set", "^TestC19FailReusedSet$", 60), rapid_job("fail-mid-sync", "^TestC19FailMidSync$", 60, requires="verif_plugin"), rapid_job("sequences", "^TestC19CanarySequences$", 1, shards=4, requires="verif_plugin"), rapid_job("queue", "^TestC19Queue$", 200, shards=2, requires="verif_plugin")]},
+    "thorough": {"jobs": [rapid_job("commands", "^TestC19Commands$", 2500, shards=15, timeout="50m"), rapid_job("reused-set", "^TestC19FailReusedSet$", 400), rapid_job("fail-mid-sync", "^TestC19FailMidSync$", 500, requires="verif_plugin"), rapid_job("sequences", "^TestC19CanarySequences$", 1, shards=4, requires="verif_plugin"), rapid_job("queue", "^TestC19Queue$", 3000, shards=6, timeout="50m", requires="verif_plugin")]},
 }
 
 NOT_APPLICABLE = {}
